@@ -1404,3 +1404,182 @@ def independence_sites(repo, tier):
         except Exception as e:  # noqa -- never let an exception escape (would be a false alarm)
             C.add(oid, None, f"analysis failed: {type(e).__name__}: {e}"[:200])
     return {"obligations": C.obls, "functions": C.fns}
+
+
+# ------------------------------------------------ where the elements of a slide's text come from --
+# Statement: "the units cover the body exactly" -- the text of a slide's unit is the text ON the slide.  In an ODF drawing page the
+# speaker notes are a child <presentation:notes> of the <draw:page> that holds its own frames, so a walk that reaches the frames of
+# the slide by a DESCENDANT step from the page (Element.iter, an XPath with //, a recursive helper) also reaches the notes frames.
+# Policy: following the paragraph whose text is stored into title / body_text / other_text back to the page parameter, the FIRST
+# navigation step away from the page is a child step (find / findall / iterfind with a plain tag, iteration over the element).
+# Decided on the def-use chain of the real function; anything not followed (helpers, generators) is `unknown`.
+_CHILD_STEPS = {"find", "findall", "iterfind"}
+_DESC_STEPS = {"iter", "itertext", "getiterator"}
+
+
+def _nav_chain(fn, expr, at, params, depth=0):
+    """-> list of chains; a chain is a list of steps ('param'|'child'|'desc'|'unknown', text) and of bookkeeping steps for tuples
+    put into / taken out of lists, first step first.  `at` is the node where `expr` is evaluated (reaching definitions)."""
+    if depth > 16:
+        return [[("unknown", "too deep")]]
+    rec = lambda e, a=at: _nav_chain(fn, e, a, params, depth + 1)
+    if isinstance(expr, ast.Call) and isinstance(expr.func, ast.Attribute) and expr.func.attr in _CHILD_STEPS | _DESC_STEPS:
+        arg = expr.args[0] if expr.args else None
+        path = arg.value if isinstance(arg, ast.Constant) and isinstance(arg.value, str) else None
+        kind = "child" if expr.func.attr in _CHILD_STEPS and not (path is not None and "//" in path) else "desc"
+        if expr.func.attr in _CHILD_STEPS and path is None and not isinstance(arg, (ast.Name, ast.Attribute)):
+            kind = "unknown"
+        return [c + [(kind, ast.unparse(expr)[:60])] for c in rec(expr.func.value)]
+    if isinstance(expr, ast.Call) and dotted(expr.func) in ("list", "tuple", "iter", "sorted", "reversed") and expr.args:
+        return rec(expr.args[0])
+    if isinstance(expr, ast.Name):
+        defs = _reaching_defs(fn, expr.id, at)
+        if not defs and expr.id in params:
+            return [[("param", expr.id)]]
+        out = []
+        for kind, node, pos, where in defs:
+            if kind == "assign":
+                cs = rec(node, where)
+                out += [c + [("elem", pos)] for c in cs] if pos is not None else cs
+            elif kind == "iter":                  # bound by a loop / comprehension over node (component pos of the element)
+                out += [c + [("elem", pos)] for c in rec(node, where)]
+            elif kind == "append":                # list filled by .append(node) / .extend(node)
+                out += [c + [("mk", None)] for c in rec(node, where)]
+        return out or [[("unknown", f"`{expr.id}` has no definition that is understood")]]
+    if isinstance(expr, ast.Tuple):
+        return [c + [("tuple", i)] for i, e in enumerate(expr.elts) for c in rec(e)]
+    if isinstance(expr, (ast.ListComp, ast.GeneratorExp)):
+        return [c + [("mk", None)] for c in _nav_chain(fn, expr.elt, expr.elt, params, depth + 1)]
+    if isinstance(expr, ast.Constant) or (isinstance(expr, ast.List) and not expr.elts):
+        return []
+    return [[("unknown", ast.unparse(expr)[:60])]]
+
+
+_PARENTS = {}
+
+
+def _parents_of(fn):
+    key = id(fn)
+    if key not in _PARENTS or _PARENTS[key][0] is not fn:
+        par = {}
+        for n in ast.walk(fn):
+            for c in ast.iter_child_nodes(n):
+                par[id(c)] = n
+        _PARENTS[key] = (fn, par)
+    return _PARENTS[key][1]
+
+
+def _binds(target, name):
+    """position of `name` in a loop / assignment target: None (the whole value), (i, n) (component), or False"""
+    if isinstance(target, ast.Name):
+        return None if target.id == name else False
+    if isinstance(target, (ast.Tuple, ast.List)):
+        for i, x in enumerate(target.elts):
+            if isinstance(x, ast.Name) and x.id == name:
+                return (i, len(target.elts))
+    return False
+
+
+def _reaching_defs(fn, name, at):
+    """definitions of a local that reach the use at node `at`: the innermost enclosing loop / comprehension that binds it, else the
+    assignments and list-filling calls textually in front of the use.  -> [(kind, expr, component, node where expr is evaluated)]"""
+    par = _parents_of(fn)
+    x, prev = at, None
+    while id(x) in par:
+        prev, x = x, par[id(x)]
+        if isinstance(x, (ast.For, ast.AsyncFor)) and prev is not x.iter and _binds(x.target, name) is not False:
+            return [("iter", x.iter, _binds(x.target, name), x)]
+        if isinstance(x, (ast.ListComp, ast.GeneratorExp, ast.SetComp, ast.DictComp)):
+            for g in x.generators:
+                if _binds(g.target, name) is not False and prev is not g:
+                    return [("iter", g.iter, _binds(g.target, name), x)]
+    line = getattr(at, "lineno", 10 ** 9)
+    out = []
+    for n in ast.walk(fn):
+        if getattr(n, "lineno", 10 ** 9) > line:
+            continue
+        if isinstance(n, (ast.Assign, ast.AnnAssign)) and getattr(n, "value", None) is not None and n.lineno < line:
+            for t in (n.targets if isinstance(n, ast.Assign) else [n.target]):
+                b = _binds(t, name)
+                if b is not False:
+                    out.append(("assign", n.value, b, n))
+        elif isinstance(n, ast.Call) and isinstance(n.func, ast.Attribute) and isinstance(n.func.value, ast.Name) and n.func.value.id == name \
+                and n.func.attr in ("append", "extend", "add", "insert") and n.args and n.lineno < line:
+            out.append(("append", n.args[-1], None, n))
+    return out
+
+
+def _simplify_chain(chain):
+    """cancel tuple construction against tuple unpacking: [.., ('tuple', i), ('mk'), ('elem', (j, n))] keeps the chain iff i == j"""
+    out = []
+    for st in chain:
+        if st[0] == "elem" and st[1] is not None and len(out) >= 2 and out[-1][0] == "mk" and out[-2][0] == "tuple":
+            i = out[-2][1]
+            out = out[:-2]
+            if i != st[1][0]:
+                return None                   # another component of the tuple: not the element followed
+            continue
+        if st[0] == "elem" and st[1] is None and out and out[-1][0] == "mk":
+            out = out[:-1]
+            continue
+        out.append(st)
+    return out
+
+
+def slide_text_navigation(repo, tier):
+    C = Checks()
+    rel = EX + "open_office/odp_extractor.py"
+    oid = "C03/odp_extractor.py::_extract_slide/policy#slide-text-is-taken-from-the-page's-own-frames-not-from-its-notes-page"
+    try:
+        m = loader.module(rel, repo)
+        cands = [(q, f) for q, f in m.functions.items() if len(f.args.args) >= 2 and
+                 {"body_text", "other_text"} <= {n.attr for n in ast.walk(f) if isinstance(n, ast.Attribute)} and "notes" in {n.attr for n in ast.walk(f) if isinstance(n, ast.Attribute)}]
+        if len(cands) != 1:
+            C.add(oid, None, f"{len(cands)} functions store slide text")
+            return {"obligations": C.obls, "functions": C.fns}
+        q, fn = cands[0]
+        params = {a.arg for a in fn.args.args + fn.args.kwonlyargs}
+        stores = []
+        for lp in ast.walk(fn):
+            if isinstance(lp, ast.For):
+                own = [n for s in lp.body for n in _own_walk(s) if not isinstance(n, ast.For)]
+                direct = [n for s in lp.body for n in _own_walk(s)]
+                inner_for = [n for n in direct if isinstance(n, ast.For)]
+                in_inner = {id(x) for f2 in inner_for for x in ast.walk(f2)}
+                for n in direct:
+                    if id(n) in in_inner:
+                        continue
+                    if (isinstance(n, ast.Call) and isinstance(n.func, ast.Attribute) and n.func.attr in ("append", "extend") and
+                            isinstance(n.func.value, ast.Attribute) and n.func.value.attr in ("body_text", "other_text")) or \
+                            (isinstance(n, ast.Assign) and any(isinstance(t, ast.Attribute) and t.attr == "title" for t in n.targets)):
+                        stores.append((lp, n))
+        if not stores:
+            C.add(oid, None, "no loop stores into title / body_text / other_text")
+            return {"obligations": C.obls, "functions": C.fns}
+        verdict, details = True, []
+        for lp in {id(l): l for l, _n in stores}.values():
+            chains = [_simplify_chain(c) for c in _nav_chain(fn, lp.iter, lp, params)]
+            chains = [c for c in chains if c is not None]
+            if not chains:
+                verdict = None
+                details.append(f"line {lp.lineno}: origin of {ast.unparse(lp.iter)[:40]} not found")
+                continue
+            for c in chains:
+                steps = [s for s in c if s[0] in ("child", "desc", "unknown", "param")]
+                txt = " / ".join(s[1] if isinstance(s[1], str) else str(s[1]) for s in steps)
+                if not steps or steps[0][0] != "param" or any(s[0] in ("mk", "tuple") or (s[0] == "elem" and s[1] is not None) for s in c):
+                    verdict = None if verdict is not False else verdict
+                    details.append(f"line {lp.lineno}: walk not followed back to a parameter: {txt}")
+                elif len(steps) < 2 or steps[1][0] == "unknown":
+                    verdict = None if verdict is not False else verdict
+                    details.append(f"line {lp.lineno}: first step from `{steps[0][1]}` not understood: {txt}")
+                elif steps[1][0] == "desc":
+                    verdict = False
+                    details.append(f"line {lp.lineno}: the first step from `{steps[0][1]}` is a descendant walk ({steps[1][1]}): it also reaches the frames of <presentation:notes>")
+                else:
+                    details.append(f"line {lp.lineno}: {txt}")
+        C.add(oid, verdict, "; ".join(details)[:600], f"{rel}:{fn.lineno}")
+        C.fn(m, q)
+    except Exception as e:  # noqa
+        C.add(oid, None, f"analysis failed: {type(e).__name__}: {e}"[:200])
+    return {"obligations": C.obls, "functions": C.fns}
